@@ -23,12 +23,32 @@ inductive C10Cmd where
   | wait (task : Nat)
   deriving Repr, Inhabited
 
+/-- one step of a piece of straight-line client code (c09): `stop_with_code c` / `Arbiter::new` (kind) -/
+inductive BAct where
+  | stop (c : Int)
+  | new (kind : String)
+  deriving Repr, Inhabited, BEq
+
+structure Entry where
+  origin : String
+  actions : List BAct
+  seq : Bool
+  deriving Repr, Inhabited
+
+def BAct.isStop : BAct → Bool
+  | .stop _ => true
+  | .new _ => false
+
+def Entry.news (e : Entry) : Nat := (e.actions.filter (!·.isStop)).length
+def Entry.hasStop (e : Entry) : Bool := e.actions.any (·.isStop)
+
 structure State where
   proto : Nat := 0
   done : Bool := false
   kinds : List String := []
-  /-- origin, code, seq -/
-  stops : List (String × Int × Bool) := []
+  /-- `stop` / `batch` lines: origin, actions issued back to back, seq -/
+  entries : List Entry := []
+  hasBatch : Bool := false
   /-- c09: the arbiter whose process-wide number equals the system id (ids are arbitrary in the model) -/
   align : Option Nat := none
   /-- c10: number of command targets (arbiters incl. the system arbiter) -/
@@ -43,6 +63,8 @@ structure State where
   taskArb : List Nat := []
   /-- per task: none = not a gate, some opened -/
   taskGate : List (Option Bool) := []
+  /-- per task: a `wait` line for it exists -/
+  taskWaited : List Bool := []
   stopped : List Bool := []
   deriving Inhabited
 
@@ -68,7 +90,6 @@ def stripPre (p s : String) : Option String :=
 
 def prefixedNat? (p s : String) : Option Nat := (stripPre p s).bind nat?
 
-def viaOk (s : String) : Bool := s == "own" || s == "h1" || s == "h2"
 def kindOk (s : String) : Bool :=
   ["fn", "fut", "pend", "yield", "sleep", "panic", "fnpanic", "block", "gate"].contains s
 
@@ -93,50 +114,86 @@ def countTrue (l : List Bool) : Nat := (l.filter id).length
 
 /-! ### C09 -/
 
-/-- witness schedule for a C09 scenario with the stops issued in the given order -/
-def runC09 (kinds : List String) (stops : List (String × Int)) (variant : Nat) :
-    ActixNet.Rt.State × List Bool × List Bool :=
+/-- an action in the system queue order: (entry, position in the entry, action, model id of the arbiter
+a `new` creates) -/
+abbrev QAct := Nat × Nat × BAct × Nat
+
+def interleavings {α : Type} : List α → List α → List (List α)
+  | [], ys => [ys]
+  | xs, [] => [xs]
+  | x :: xs, y :: ys =>
+    (interleavings xs (y :: ys)).map (x :: ·) ++ (interleavings (x :: xs) ys).map (y :: ·)
+termination_by xs ys => xs.length + ys.length
+
+/-- the queue orders the director's protocol allows: a `seq` entry is issued after everything in front
+of it has been acknowledged; the others race with everything since the last such barrier -/
+def queueOrders (es : List (Bool × List QAct)) : List (List QAct) :=
+  let cands := es.zipIdx.foldl (fun (cs : List (List QAct × List QAct)) (x : (Bool × List QAct) × Nat) =>
+      let ((seq, acts), i) := x
+      if i > 0 && seq then cs.map fun (f, o) => (f ++ o, acts)
+      else cs.flatMap fun (f, o) => (interleavings o acts).map fun o' => (f, o')) [([], [])]
+  cands.map fun (f, o) => f ++ o
+
+/-- the per-kind set-up right after `Arbiter::new` (guard task; early stop; busy task) -/
+def setUp (s : ActixNet.Rt.State) (i : Nat) (kind : String) (windDown : Bool) : ActixNet.Rt.State × List Bool :=
+  let s := step s (.newArb i)
+  let (s, _) := doSend s i (.exec (9000 + i))
+  match kind with
+  | "early" =>
+    let (s, r) := doSend s i .stop
+    -- the early arbiter may wind down and deregister before the Exit
+    (if windDown then run s ([.runner i, .runner i, .close i, .fin i]) else s, [r])
+  | "done" =>
+    -- stopped and joined before anything else happens: wound down, `Deregister` queued
+    let (s, r) := doSend s i .stop
+    (run s [.runner i, .runner i, .close i, .fin i], [r])
+  | "busy" =>
+    let (s, _) := doSend s i (.exec (8000 + i))
+    (run s [.runner i, .runner i, .task i, .task i], [])
+  | _ => (s, [])
+
+/-- witness schedule for a C09 scenario: the actions in the given queue order, after which the
+controller handles `h` more commands and is dropped with the system's runtime.
+Returns the state, the early-stop / post-spawn return values and, per arbiter created by a batch, whether
+its loop ended without the harness's help. -/
+def runC09 (kinds : List String) (origins : List String) (q : List QAct) (lateIds : List Nat) (variant h : Nat) :
+    ActixNet.Rt.State × List Bool × List Bool × List Bool :=
   let n := kinds.length
   let idx := List.range n
-  -- creation: guard task, per-kind set-up
   let (s, early) := idx.foldl (fun (acc : ActixNet.Rt.State × List Bool) i =>
-      let (s, early) := acc
-      let s := step s (.newArb i)
-      let (s, _) := doSend s i (.exec (9000 + i))
-      match kinds[i]? with
-      | some "early" =>
-        let (s, r) := doSend s i .stop
-        -- even variants: the early arbiter winds down and deregisters before the Exit
-        let s := if variant % 2 == 0 then run s ([.runner i, .runner i, .close i, .fin i]) else s
-        (s, early ++ [r])
-      | some "done" =>
-        -- stopped and joined before anything else happens: wound down, `Deregister` queued
-        let (s, r) := doSend s i .stop
-        (run s [.runner i, .runner i, .close i, .fin i], early ++ [r])
-      | some "busy" =>
-        let (s, _) := doSend s i (.exec (8000 + i))
-        (run s [.runner i, .runner i, .task i, .task i], early)
-      | _ => (s, early)) (ActixNet.Rt.init, [])
+      let (s, r) := setUp acc.1 i (kinds.getD i "") (variant % 2 == 0)
+      (s, acc.2 ++ r)) (ActixNet.Rt.init, [])
   let s := run s (rep (2 * n + 3) .ctrl)
-  -- the stops, in the chosen queue order
-  let s := stops.zipIdx.foldl (fun (s : ActixNet.Rt.State) (x : (String × Int) × Nat) =>
-      let ((o, c), k) := x
-      match prefixedNat? "arb:" o with
-      | some a =>
-        let (s, _) := doSend s a (.exec (7000 + k))
-        let s := run s (rep 4 (.runner a) ++ rep 4 (.task a))
-        step s (.sysSend c)
-      | none => step s (.sysSend c)) s
-  let s := run s (rep (2 * n + 5) .ctrl)
-  -- every arbiter drains its channel, closes, deregisters; the controller handles that too
+  -- the actions, in the chosen queue order; an entry issued from an arbiter's thread is a task there
+  let (s, _) := q.foldl (fun (acc : ActixNet.Rt.State × List Nat) (x : QAct) =>
+      let (s, begun) := acc
+      let (e, _, a, id) := x
+      let s := if begun.contains e then s else
+        match prefixedNat? "arb:" (origins.getD e "") with
+        | some k =>
+          let (s, _) := doSend s k (.exec (7000 + e))
+          run s (rep 4 (.runner k) ++ rep 4 (.task k))
+        | none => s
+      let s := match a with
+        | .stop c => step s (.sysSend c)
+        | .new kind => (setUp s id kind false).1
+      (s, e :: begun)) (s, [])
+  let s := run s (rep h .ctrl)
+  -- arbiters created by the batch: drain; not ended = an orphan, which the harness stops itself
+  let (s, alone) := lateIds.foldl (fun (acc : ActixNet.Rt.State × List Bool) i =>
+      let s := run acc.1 (rep 8 (.runner i))
+      let e := (s.arbs i).ended
+      let s := if e then s else (doSend s i .stop).1
+      (run s (rep 2 (.runner i) ++ [.close i, .fin i]), acc.2 ++ [e])) (s, [])
+  -- every arbiter drains its channel, closes, deregisters
   let s := idx.foldl (fun (s : ActixNet.Rt.State) i => run s (rep 8 (.runner i) ++ [.close i, .fin i])) s
-  let s := run s (rep (n + 1) .ctrl)
   let (s, post) := idx.foldl (fun (acc : ActixNet.Rt.State × List Bool) i =>
       let (s, r) := doSend acc.1 i (.exec (6000 + i))
       (s, acc.2 ++ [r])) (s, [])
-  (s, early, post)
+  (s, early, post, alone)
 
-def verdictC09 (kinds : List String) (modeRun : Bool) (s : ActixNet.Rt.State) (early post : List Bool) : String :=
+def verdictC09 (kinds : List String) (modeRun : Bool) (s : ActixNet.Rt.State) (early post : List Bool)
+    (letters : List String) : String :=
   let n := kinds.length
   let idx := List.range n
   let code := match runWithCode s with | some c => showInt c | none => "hang"
@@ -145,34 +202,59 @@ def verdictC09 (kinds : List String) (modeRun : Bool) (s : ActixNet.Rt.State) (e
   let joinable := idx.filter fun i => kinds[i]? != some "dropped"
   let joined := joinable.filter fun i => joinReturns s i
   let ended := idx.filter fun i => (s.arbs i).ended
-  s!"code={code} res={res} joins={joined.length}/{joinable.length} ended={ended.length}/{n} early={countTrue early}/{early.length} post={countTrue post}/{n}"
+  let batch := if letters.isEmpty then "-" else ",".intercalate letters
+  s!"code={code} res={res} joins={joined.length}/{joinable.length} ended={ended.length}/{n} early={countTrue early}/{early.length} post={countTrue post}/{n} batch={batch}"
 
-/-- the harness's normalisation of an observed C09 log -/
-def observedC09 (kinds : List String) (log : List String) : Option String := do
+/-- the harness's normalisation of an observed C09 log, and the per-batch-arbiter letters -/
+def observedC09 (kinds : List String) (log : List String) : Option (String × List String) := do
   let code ← field log "code"
   let res ← field log "res"
   let joins := commaList (← field log "joins")
   let ended := commaList (← field log "ended")
   let early := commaList (← field log "early")
   let post := commaList (← field log "post")
+  let batch ← field log "batch"
   let n := kinds.length
   let joinable := (joins.filter (· != "-")).length
-  some s!"code={code} res={res} joins={(joins.filter (· == "ok")).length}/{joinable} ended={(ended.filter (· == "1")).length}/{n} early={(early.filter (· == "1")).length}/{early.length} post={(post.filter (· == "1")).length}/{n}"
+  some (s!"code={code} res={res} joins={(joins.filter (· == "ok")).length}/{joinable} ended={(ended.filter (· == "1")).length}/{n} early={(early.filter (· == "1")).length}/{early.length} post={(post.filter (· == "1")).length}/{n} batch={batch}",
+    commaList batch)
 
 def observeC09 (st : State) (modeRun : Bool) (j : Nat) (log : List String) : String :=
-  let stops := st.stops.map fun (o, c, _) => (o, c)
-  let orders : List (List (String × Int)) :=
-    match st.stops with
-    | [_, (_, _, false)] => [stops, stops.reverse]
-    | _ => [stops]
-  let cands := orders.map fun o =>
-    let (s, early, post) := runC09 st.kinds o j
-    verdictC09 st.kinds modeRun s early post
   match observedC09 st.kinds log with
   | none => "not-a-model-behaviour: unreadable log"
-  | some obs =>
+  | some (obs, letters) =>
+    let n := st.kinds.length
+    let origins := st.entries.map (·.origin)
+    -- did the entry that creates arbiters run at all?  (all of it or nothing: it is one poll)
+    let nlate := (st.entries.map (·.news)).sum
+    let absent := nlate > 0 && letters.all (· == "-")
+    -- tag the actions; arbiters created by the batch get the ids n, n+1, …
+    let tagged : List (Bool × List QAct) := st.entries.zipIdx.map fun (e, ei) =>
+      let acts := if absent && e.news > 0 then [] else e.actions
+      let (qs, _) := acts.zipIdx.foldl (fun (acc : List QAct × Nat) (x : BAct × Nat) =>
+          match x.1 with
+          | .new _ => (acc.1 ++ [(ei, x.2, x.1, acc.2)], acc.2 + 1)
+          | .stop _ => (acc.1 ++ [(ei, x.2, x.1, 0)], acc.2)) ([], n)
+      (e.seq, qs)
+    let lateIds := if absent then [] else (List.range nlate).map (· + n)
+    let cands : List String := (queueOrders tagged).flatMap fun q =>
+      -- the controller runs at least until it has handled the first Exit, and one poll handles
+      -- everything that was queued by the thread it shares (system thread) before that poll
+      let firstStop := (q.findIdx? fun x => x.2.2.1.isStop).getD q.length
+      let batchEnd (ei : Nat) : Nat :=
+        (q.zipIdx.foldl (fun (m : Nat) (x : QAct × Nat) => if x.1.1 == ei then x.2 + 1 else m) 0)
+      let winner := (q[firstStop]?).map (·.1)
+      let hmin := st.entries.zipIdx.foldl (fun (m : Nat) (x : Entry × Nat) =>
+          let (e, ei) := x
+          let sameThread := e.origin == "sys-pre" || (e.origin == "sys-task" && winner == some ei)
+          if sameThread then max m (batchEnd ei) else m) (firstStop + 1)
+      let hs := (List.range (q.length + 1)).filter (· ≥ min hmin q.length)
+      hs.map fun h =>
+        let (s, early, post, alone) := runC09 st.kinds origins q lateIds j h
+        let ls := if absent then List.replicate nlate "-" else alone.map fun e => if e then "e" else "o"
+        verdictC09 st.kinds modeRun s early post ls
     if cands.contains obs then obs
-    else "not-a-model-behaviour: observed [" ++ obs ++ "] model allows [" ++ " | ".intercalate cands ++ "]"
+    else "not-a-model-behaviour: observed [" ++ obs ++ "] model allows [" ++ " | ".intercalate cands.eraseDups ++ "]"
 
 /-! ### C10 -/
 
@@ -332,6 +414,34 @@ def splitObserve (ws : List String) : List String × List String :=
   let head := ws.takeWhile (· != "||")
   (head, (ws.drop (head.length + 1)))
 
+/-- where an entry is issued from (`foreign`: stops only) -/
+def originOk (st : State) (o : String) (foreignOk : Bool) : Bool :=
+  o == "sys-pre" || o == "sys-task" || (foreignOk && o == "foreign") ||
+    (match prefixedNat? "arb:" o with
+     | some k => k < st.kinds.length && st.kinds[k]? != some "early" && st.kinds[k]? != some "done"
+     | none => false)
+
+/-- at most three entries; an entry on the system thread in front of `run` cannot be made to wait for the
+acknowledgement of one that needs the system to be running -/
+def entryOk (st : State) (o : String) (seq : Bool) : Bool :=
+  let i := st.entries.length
+  if i ≥ 3 then false else
+  let k := if i > 0 && seq then i
+    else ((List.range i).reverse.find? fun j => j ≥ 1 && (st.entries.getD j default).seq).getD 0
+  !(o == "sys-pre" && (st.entries.take k).any (·.origin == "sys-task"))
+
+/-- `own` | `h1` | `h2` | `t<g>` | `c<g>` (sent by gate task `g`: waited for, still closed; `c` = through
+`Arbiter::current()`, so only to the gate task's own arbiter) -/
+def viaOkAt (st : State) (target : Nat) (s : String) : Bool :=
+  if s == "own" || s == "h1" || s == "h2" then true else
+  let chk (g : Nat) (cur : Bool) : Bool :=
+    g < st.ntask && st.taskGate.getD g none == some false && st.taskWaited.getD g false &&
+      (!cur || st.taskArb.getD g 0 == target)
+  match prefixedNat? "t" s, prefixedNat? "c" s with
+  | some g, _ => chk g false
+  | _, some g => chk g true
+  | _, _ => false
+
 def step (st : State) (line : String) : State × String :=
   let ws := words line
   match ws with
@@ -347,34 +457,47 @@ def step (st : State) (line : String) : State × String :=
     | _ => (ws, [])
   match st.proto, ws with
   | 9, ["arb", k] =>
-    if ["early", "dropped", "running", "busy", "done"].contains k && st.kinds.length < 3 && st.stops.isEmpty
+    if ["early", "dropped", "running", "busy", "done"].contains k && st.kinds.length < 3 && st.entries.isEmpty
         && st.align.isNone then
       ({ st with kinds := st.kinds ++ [k] }, s!"ok a{st.kinds.length}")
     else (st, "bad-op")
   | 9, ["align", k] =>
     match nat? k with
     | some k =>
-      if k < st.kinds.length && st.stops.isEmpty && st.align.isNone then ({ st with align := some k }, "ok")
+      if k < st.kinds.length && st.entries.isEmpty && st.align.isNone then ({ st with align := some k }, "ok")
       else (st, "bad-op")
     | none => (st, "bad-op")
   | 9, "stop" :: o :: c :: rest =>
-    let originOk := o == "sys-pre" || o == "sys-task" || o == "foreign" ||
-      (match prefixedNat? "arb:" o with
-       | some k => k < st.kinds.length && st.kinds[k]? != some "early" && st.kinds[k]? != some "done"
-       | none => false)
     let seq? : Option Bool := match rest with
       | [] => some true | ["seq"] => some true | ["race"] => some false | _ => none
-    match originOk, int? c, seq? with
+    match originOk st o true, int? c, seq? with
     | true, some code, some seq =>
-      if st.stops.length ≥ 2 then (st, "bad-op")
-      else if st.stops.length == 1 && seq && o == "sys-pre" && (st.stops.head?.map (·.1)) == some "sys-task" then
-        (st, "bad-op")
-      else ({ st with stops := st.stops ++ [(o, code, seq)] }, "ok")
+      if !entryOk st o seq then (st, "bad-op")
+      else ({ st with entries := st.entries ++ [{ origin := o, actions := [.stop code], seq := seq }] }, "ok")
     | _, _, _ => (st, "bad-op")
+  | 9, "batch" :: o :: rest =>
+    let (items, seq) := match rest.getLast? with
+      | some "seq" => (rest.dropLast, true)
+      | some "race" => (rest.dropLast, false)
+      | _ => (rest, true)
+    let acts? : Option (List BAct) := items.mapM fun it =>
+      match it with
+      | "nr" => some (.new "running") | "nb" => some (.new "busy")
+      | "nd" => some (.new "dropped") | "ne" => some (.new "early")
+      | _ => ((stripPre "s" it).bind int?).map .stop
+    match originOk st o false, acts? with
+    | true, some acts =>
+      let e : Entry := { origin := o, actions := acts, seq := seq }
+      if items.isEmpty || items.length > 5 || st.hasBatch || e.news > 2 || (e.news > 0 && st.align.isSome)
+          || !entryOk st o seq then (st, "bad-op")
+      else
+        let ids := String.join ((List.range e.news).map fun i => s!" a{st.kinds.length + i}")
+        ({ st with entries := st.entries ++ [e], hasBatch := true }, "ok" ++ ids)
+    | _, _ => (st, "bad-op")
   | 9, ["go", m, j] =>
     match (m == "run" || m == "code"), prefixedNat? "j=" j with
     | true, some j =>
-      if st.stops.isEmpty then (st, "bad-op")
+      if !st.entries.any (·.hasStop) then (st, "bad-op")
       else ({ st with done := true }, observeC09 st (m == "run") j log)
     | _, _ => (st, "bad-op")
   | 10, ["host", n, mode] =>
@@ -391,30 +514,33 @@ def step (st : State) (line : String) : State × String :=
     if st.sysIdx.isSome || st.nlines > 0 then (st, "bad-op")
     else ({ st with narb := st.narb + 1, sysIdx := some st.narb, stopped := st.stopped ++ [false] }, s!"ok a{st.narb}")
   | 10, ["spawn", a, via, kind] =>
-    match nat? a, viaOk via, kindOk kind with
-    | some a, true, true =>
-      if a ≥ st.narb || st.nlines ≥ maxLines || st.ntask ≥ maxTasks then (st, "bad-op")
+    match nat? a, kindOk kind with
+    | some a, true =>
+      if a ≥ st.narb || st.nlines ≥ maxLines || st.ntask ≥ maxTasks || !viaOkAt st a via then (st, "bad-op")
       else ({ st with cmds := st.cmds ++ [.spawn a st.ntask], ntask := st.ntask + 1, nlines := st.nlines + 1,
                       taskArb := st.taskArb ++ [a],
-                      taskGate := st.taskGate ++ [if kind == "gate" then some false else none] }, s!"ok t{st.ntask}")
-    | _, _, _ => (st, "bad-op")
+                      taskGate := st.taskGate ++ [if kind == "gate" then some false else none],
+                      taskWaited := st.taskWaited ++ [false] }, s!"ok t{st.ntask}")
+    | _, _ => (st, "bad-op")
   | 10, ["spawnn", a, via, kind, n] =>
-    match nat? a, viaOk via, kindOk kind, nat? n with
-    | some a, true, true, some n =>
-      if a ≥ st.narb || st.nlines ≥ maxLines || n < 2 || n > 300 || st.ntask + n > maxTasks || kind == "gate" then
+    match nat? a, kindOk kind, nat? n with
+    | some a, true, some n =>
+      if a ≥ st.narb || st.nlines ≥ maxLines || n < 2 || n > 300 || st.ntask + n > maxTasks || kind == "gate"
+          || !viaOkAt st a via then
         (st, "bad-op")
       else
         let ts := (List.range n).map (· + st.ntask)
         ({ st with cmds := st.cmds ++ ts.map (fun t => .spawn a t), ntask := st.ntask + n, nlines := st.nlines + 1,
                    taskArb := st.taskArb ++ List.replicate n a,
-                   taskGate := st.taskGate ++ List.replicate n none }, s!"ok t{st.ntask}..t{st.ntask + n - 1}")
-    | _, _, _, _ => (st, "bad-op")
+                   taskGate := st.taskGate ++ List.replicate n none,
+                   taskWaited := st.taskWaited ++ List.replicate n false }, s!"ok t{st.ntask}..t{st.ntask + n - 1}")
+    | _, _, _ => (st, "bad-op")
   | 10, ["stop", a, via] =>
-    match nat? a, viaOk via with
-    | some a, true =>
-      if a ≥ st.narb || st.nlines ≥ maxLines then (st, "bad-op")
+    match nat? a with
+    | some a =>
+      if a ≥ st.narb || st.nlines ≥ maxLines || !viaOkAt st a via then (st, "bad-op")
       else ({ st with cmds := st.cmds ++ [.stop a], nlines := st.nlines + 1, stopped := st.stopped.set a true }, "ok")
-    | _, _ => (st, "bad-op")
+    | none => (st, "bad-op")
   | 10, ["wait", t] =>
     match prefixedNat? "t" t with
     | some t =>
@@ -422,7 +548,8 @@ def step (st : State) (line : String) : State × String :=
       -- a closed gate sent earlier to the same target holds everything behind it
       let held := (List.range t).any fun g => st.taskArb.getD g 0 == arb && st.taskGate.getD g none == some false
       if t ≥ st.ntask || st.stopped.getD arb true || st.nlines ≥ maxLines || held then (st, "bad-op")
-      else ({ st with cmds := st.cmds ++ [.wait t], nlines := st.nlines + 1 }, "ok")
+      else ({ st with cmds := st.cmds ++ [.wait t], nlines := st.nlines + 1,
+                      taskWaited := st.taskWaited.set t true }, "ok")
     | none => (st, "bad-op")
   | 10, ["open", t] =>
     match prefixedNat? "t" t with
